@@ -54,6 +54,8 @@ patch_fails = z3.Function("cli_patch_apply_fails", Py, Py, Py, Py, z3.IntSort())
 loaded = z3.Function("cli_json_load", Py, Py)
 load_fails = z3.Function("cli_json_load_fails", Py, z3.BoolSort())
 file_text = z3.Function("cli_file_text", Py, STR)
+text_doc = z3.Function("cli_document_of_text", STR, Py)  # what load_data makes of a string argument
+text_fails = z3.Function("cli_document_of_text_fails", STR, z3.BoolSort())
 
 COMPILE_FAMILY = (exc.JSONPathSyntaxError, exc.JSONPathTypeError, exc.JSONPathIndexError, exc.JSONPathNameError)
 FINDALL_FAMILY = (exc.JSONPathTypeError,)
@@ -80,7 +82,14 @@ def _doc(it, arg):
             raise PyRaise(ExcVal(json.JSONDecodeError, [S.mk_str("<target document>")]))
         it.assume(S.json_value(loaded(t)))
         return loaded(t)
-    return lib.T(it, arg)
+    v = lib.T(it, arg)
+    if it.branch(Py.is_str(v)):
+        # a string handed to the library is JSON text (or a bare string document): decoded again
+        if it.branch(text_fails(Py.s(v))):
+            it.trace.append(("effect", "library-raises", "JSONDecodeError"))
+            raise PyRaise(ExcVal(json.JSONDecodeError, [S.mk_str("<target document text>")]))
+        return text_doc(Py.s(v))
+    return v
 
 
 def _file(it, name):
